@@ -104,6 +104,49 @@ func runReplayIn(pkg, testFile string) (string, bool) {
 }
 
 func init() {
+	// C13: the decoder must not panic on any input; the witness search feeds the real
+	// codec frames whose method field names entities of every registered kind, plus
+	// truncated and inconsistent frames.
+	registerReplay(`^\(Codec\)\.(gorumsUnmarshal|Unmarshal)/nopanic\[`, "", func(m []string, o *Oblig, model string) string {
+		return `// gvc-replay pkg=
+package gorums
+
+import (
+	"testing"
+
+	"github.com/relab/gorums/ordering"
+	"google.golang.org/protobuf/encoding/protowire"
+	"google.golang.org/protobuf/proto"
+)
+
+func TestGvcReplay(t *testing.T) {
+	c := NewCodec()
+	var frames [][]byte
+	for _, name := range []string{"", "ordering.Metadata", "ordering.Gorums", "ordering.Gorums.NodeStream", "ordering.Metadata.MessageID", "no.such.Name", "ordering/ordering.proto"} {
+		md, _ := proto.Marshal(&ordering.Metadata{MessageID: 1, Method: name})
+		var b []byte
+		b = protowire.AppendVarint(b, uint64(len(md)))
+		b = append(b, md...)
+		b = protowire.AppendVarint(b, 0)
+		frames = append(frames, b, b[:len(b)/2], append([]byte{0xff, 0xff, 0xff}, b...))
+	}
+	frames = append(frames, nil, []byte{}, []byte{0x80}, []byte{5, 1, 2})
+	for _, f := range frames {
+		for _, ty := range []gorumsMsgType{requestType, responseType, 0} {
+			func() {
+				defer func() {
+					if r := recover(); r != nil {
+						t.Fatalf("GVC-REPLAY: decoding %x (msgType %d) panicked: %v", f, ty, r)
+					}
+				}()
+				_ = c.Unmarshal(f, newMessage(ty))
+			}()
+		}
+	}
+}
+`
+	})
+
 	// C19: strict-weak-order lemmas of the provided keys, checked by brute force over a
 	// small universe of real nodes (the witness search; the proof is the SMT lemma).
 	registerReplay(`^lemma C19\.(ID|Port|LastNodeError)\.([a-z-]+)/statement$`, "", func(m []string, o *Oblig, model string) string {
